@@ -352,6 +352,34 @@ def gen_cases(run, per_class):
     return cases
 
 
+DEEP_SHAPES = ["dict-chain", "list-chain", "dict-list"]
+DEEP_DEPTHS = [63, 64, 65, 100, 101, 255, 256, 300, 450, 600]
+
+
+def deep_cases(gen, n):
+    """a custom property nesting 63 .. 600 levels (dictionary chain, list chain, dictionary-with-list tree): whatever the
+    constructor accepted and serialize wrote under an option set must be read back equal (an option set whose writer
+    runs out of stack at that depth is not observed)"""
+    r = gen.rng
+    out = []
+    cids = [c for c in gen.toplevel_ids() if gen.classes[c]["family"] in ("sdo", "sro") and not c.endswith("/Bundle")]
+    combos = [(sh, d) for sh in DEEP_SHAPES for d in DEEP_DEPTHS]
+    r.shuffle(combos)
+    # the largest depth of every shape always, the rest sampled
+    picked = [(sh, DEEP_DEPTHS[-1]) for sh in DEEP_SHAPES] + [c for c in combos if c[1] != DEEP_DEPTHS[-1]][:max(0, n - len(DEEP_SHAPES))]
+    for sh, d in picked:
+        cid = r.choice(cids)
+        try:
+            o = gen.obj(cid, optional_p=r.choice([0.0, 0.5]))
+        except (IndexError, ValueError, KeyError):
+            continue
+        out.append({"route": "construct", "cid": cid, "data": o, "allow": True,
+                    "deep": {"name": "x_deep", "shape": sh, "depth": d, "leaf": r.choice([1, "v", 0.5, True])},
+                    "opts": [{}, {"pretty": True}, {"sort_keys": True}, {"indent": 2}, {"include_optional_defaults": True}],
+                    "site": "custom property nesting %d levels (%s)" % (d, sh)})
+    return out
+
+
 def nested_custom_cases(gen, cid, o, opts):
     """custom content at the nested object positions the frozen tables give (embedded object, list element, extension,
     observable, bundle member, marking definition -- the C04 site walk): as data (parse / constructor with
@@ -633,6 +661,7 @@ def check(run):
     cases += custom_type_cases(stixgen.Gen(run.rng))
     cases += late_cases(stixgen.Gen(run.rng), 40 if run.tier == "thorough" else 12)
     cases += toplevel_ext_cases(stixgen.Gen(run.rng), 40 if run.tier == "thorough" else 10)
+    cases += deep_cases(stixgen.Gen(run.rng), 30 if run.tier == "thorough" else 9)
     results = common.run_impl("c01_impl", cases)
     created = 0
     hist = {}
